@@ -6,6 +6,16 @@ import re
 
 import z3
 
+
+def zsum(terms):
+    """z3.Sum that never builds a one-argument `+` (cvc5 rejects it)"""
+    terms = list(terms)
+    if not terms:
+        return z3.IntVal(0)
+    if len(terms) == 1:
+        return terms[0]
+    return z3.Sum(terms)
+
 import alphabet as A
 import peg
 import pest
@@ -238,7 +248,7 @@ class FileModel:
         if all(isinstance(self.t.c[k], int) for k in digs):
             val = int("".join(chr(self.t.c[k]) for k in digs))
             return And(alld, val <= U32_MAX), val
-        val = z3.Sum([(z3.BV2Int(self.t.c[k]) - 48 if not isinstance(self.t.c[k], int) else self.t.c[k] - 48)
+        val = zsum([(z3.BV2Int(self.t.c[k]) - 48 if not isinstance(self.t.c[k], int) else self.t.c[k] - 48)
                       * (10 ** (e - 1 - k)) for k in digs])
         return And(alld, val <= U32_MAX), val
 
@@ -299,7 +309,7 @@ class FileModel:
                 terms.append(z3.If(z3.ULT(ch, 128), 1,
                                    z3.If(z3.Or(ch == 128, ch == 131, ch == 132, ch == 133, ch == 136), 2,
                                          z3.If(ch == 135, 4, 3))))
-        return z3.Sum(terms) if terms else 0
+        return zsum(terms) if terms else 0
 
 
 def entries_concrete(fm, macros, structured, directives=None):
